@@ -1838,4 +1838,70 @@ Proof.
     destruct t0; try exact I. discriminate.
 Qed.
 
+(* ---- every expression ---- *)
+Theorem A_all : forall e, A_stmt e.
+Proof.
+  apply ex_ind2.
+  - apply A_ident.
+  - apply A_lit.
+  - apply A_un.
+  - apply A_bin.
+  - apply A_call.
+  - apply A_index.
+  - apply A_slicing.
+  - apply A_sel.
+  - apply A_typeassert.
+  - apply A_complit.
+  - apply A_map.
+  - apply A_slice.
+  - apply A_array.
+  - apply A_chan.
+  - apply A_func.
+  - apply A_struct.
+  - apply A_interface.
+  - apply A_default.
+  - apply A_render.
+  - apply A_funclit.
+Qed.
+
+(* the whole expression, read as the statement parser reads it *)
+Theorem parse_full : forall e el nxt ps rest g0 m,
+  ok false el e nxt = true -> stop_tok nxt = true -> pp e = Some ps -> hd_error rest = nxt ->
+  (full false e <= m)%nat ->
+  pexpr m (mkfl g0 el false false) (toks ps ++ rest) = ROk (Some (norm e), rest).
+Proof.
+  intros e el nxt ps rest g0 m hok hstop hpp hnxt hm.
+  exact (A_B e (A_all e) false el nxt hok (fun _ => hstop) ps hpp g0 false rest hnxt m hm).
+Qed.
+
+(* a type, read with mustBeType *)
+Theorem parse_type : forall e nxt ps rest g0 b0 m,
+  ok true false e nxt = true -> pp e = Some ps -> hd_error rest = nxt ->
+  (full true e <= m)%nat ->
+  pexpr m (mkfl g0 false true b0) (toks ps ++ rest) = ROk (Some (norm e), rest).
+Proof. intros e nxt ps rest g0 b0 m hok hpp hnxt hm. exact (B_type e (A_all e) g0 b0 nxt ps rest m hok hpp hnxt hm). Qed.
+
+(* x.(type) as the whole guard of a type switch *)
+Theorem parse_guard : forall x px rest m,
+  is_operator x = false -> ok false false x (Some KPeriod) = true -> pp x = Some px ->
+  stop_tok (hd_error rest) = true ->
+  (cost false x + need false x + 3 <= m)%nat ->
+  pexpr m (mkfl true false false false) (toks px ++ KPeriod :: KLP :: KKw WType :: KRP :: rest) =
+  ROk (Some (XTypeAssert 0 (norm x) None), rest).
+Proof.
+  intros x px rest m hnop hok hpp hstop hm.
+  destruct (post_A x px (A_all x) hpp hnop false KPeriod hok true false true [] (KLP :: KKw WType :: KRP :: rest)) as [c' h].
+  destruct m as [|k]; [lia|]. rewrite pexpr_S. cbn [fl_guard].
+  change (mkfl true false false false) with (FE true false).
+  replace k with (cost false x + S (S (k - cost false x - 2)))%nat by lia.
+  rewrite h by lia. rewrite pt_guard.
+  destruct rest as [|t r].
+  - rewrite pt_ret_guard_nil by reflexivity. reflexivity.
+  - cbn [hd_error ExprFullOk.stop_tok] in hstop.
+    destruct t; try discriminate; try (rewrite pt_ret_guard by reflexivity; reflexivity).
+    apply andb_prop in hstop. destruct hstop as [h1 h2]. apply negb_true_iff in h1.
+    destruct (klookup binary_tokens s) eqn:ek; [discriminate|].
+    rewrite pt_sym_inert_guard by (try assumption; reflexivity). reflexivity.
+Qed.
+
 End Main.
